@@ -38,7 +38,7 @@ func H_C12_SafeRetained(v *sym.V) {
 	b := build(v, g, "e")
 	e := b.Err
 	tag := b.Kinds[0].String()
-	switch v.Choice("stage", 7) {
+	switch v.Choice("stage", v.Param("stages", 7)) {
 	case 6:
 		// two domain annotations directly on top of each other: both names are safe strings
 		e = errors.WithDomain(errors.WithDomain(e, errors.NamedDomain("domInner")), errors.NamedDomain("domOuter"))
